@@ -53,6 +53,7 @@ type c20Case struct {
 	RunDir        bool      `json:"run_dir,omitempty"`      // commands run in a sub-directory (run --run-dir)
 	OddNames      bool      `json:"odd_names,omitempty"`    // step names with characters that mean something to file-name patterns and shells
 	Revise        bool      `json:"revise,omitempty"`       // the owner changes the signed layout afterwards and signs it again with the same keys
+	MetaLink      bool      `json:"meta_link,omitempty"`    // the metadata directory is named through a symbolic link (a mounted volume, a "current" link)
 }
 
 func c20Gen(t *rapid.T) c20Case {
@@ -90,6 +91,7 @@ func c20Gen(t *rapid.T) c20Case {
 	}
 	c.OddNames = rapid.IntRange(0, 3).Draw(t, "oddnames") == 0
 	c.Revise = rapid.IntRange(0, 3).Draw(t, "revise") == 0
+	c.MetaLink = rapid.IntRange(0, 2).Draw(t, "metalink") == 0
 	for i := range c.Steps {
 		if c.Steps[i].Mode == "run" && rapid.IntRange(0, 3).Draw(t, "fails") == 0 {
 			c.Steps[i].Fails = rapid.SampledFrom([]int{1, 2, 126, 127, 255}).Draw(t, "status")
@@ -239,6 +241,13 @@ func c20Run(c c20Case, r *hx.Rec) error {
 			_ = os.MkdirAll(metaDir, 0o755)
 			_ = os.MkdirAll(filepath.Join(e.proj, "src", "meta"), 0o755)
 			_ = os.WriteFile(filepath.Join(e.proj, "src", "meta", "info.txt"), []byte("not metadata\n"), 0o644)
+		}
+	}
+	if c.MetaLink && !c.MetaInProject {
+		// -d names a symbolic link to the directory (no trailing slash); the files end up in the directory
+		via := filepath.Join(root, "metadata-current")
+		if err := os.Symlink(e.meta, via); err == nil {
+			metaArg = via
 		}
 	}
 	emit := filepath.Join(hx.BinDir(), "emit")
@@ -547,6 +556,9 @@ func c20Run(c c20Case, r *hx.Rec) error {
 
 	// ---- tampering
 	linkDir := metaDir
+	if c.MetaLink && !c.MetaInProject {
+		linkDir = metaArg // the verifier is pointed at the link as well
+	}
 	verifyKeys := strings.Join(pubs, ",")
 	tampered := c.Tamper != ""
 	victim := c20StepName(c, c.Arg%len(c.Steps))
